@@ -206,7 +206,7 @@ class ESDC2AModel(ExcBase):
                           info='Feedback to input'
                           )
 
-        self.vout.e_str = 'INT_y - vout'
+        self.vout.e_str = 'ue * INT_y - vout'
 
 
 class ESDC2A(ESDC2AData, ESDC2AModel):
